@@ -26,10 +26,10 @@ def spec(prog, fld):
     raise AnchorError("no representation range documented for " + fld)
 
 
-def run_rule(ck, prog, rule="REPR", fields=("f62",)):
+def run_rule(ck, prog, rule="REPR", fields=("f62",), only=None, floor=None):
     total = 0
     for fld in fields:
-        total += run_field(ck, prog, rule, fld)
+        total += run_field(ck, prog, rule, fld, only, floor)
     # positive control: the same engine must reject 2M - x for x in [0, 2M) (the value 2M is outside)
     sp = spec(prog, "f62")
     an2 = Analyzer(prog)
@@ -82,7 +82,7 @@ def e5b_in_range(prog, fld, g, lo, hi):
     return res
 
 
-def run_field(ck, prog, rule, fld):
+def run_field(ck, prog, rule, fld, only=None, floor=None):
     sp = spec(prog, fld)
     mod = f"{FM}{fld}::"
     be = mod + "BaseElement"
@@ -99,6 +99,10 @@ def run_field(ck, prog, rule, fld):
     roots = sorted((f for f in prog.fns.values() if in_module(f) and f.get("kind") != "closure" and f.nname not in sp["skip"]), key=lambda f: f.nname)
     if len(roots) < 30:
         raise AnchorError(f"{fld} module: only {len(roots)} functions found")
+    if only is not None:
+        roots = [f for f in roots if only(f)]
+        if not roots:
+            raise AnchorError(f"{fld} module: no function selected")
     for c in sp["contracts"]:
         prog.fn(c)  # the assumed functions must exist (fail closed on a rename)
     seen = set()
@@ -136,5 +140,6 @@ def run_field(ck, prog, rule, fld):
         ck.saw(f)
     if sp["contracts"]:
         ck.assumptions.append(f"{fld}: results of {', '.join(c.split('::')[-1] for c in sp['contracts'])} are in {sp['what']} (not provable by interval analysis; see rules/repr_range.py)")
-    ck.floor(f"{rule}: {fld} construction sites proved in range", n, sp["floor"])
+    # sites examined = proved + reported (a reported site must surface as the VIOLATION it is, not as a count that fell below the floor)
+    ck.floor(f"{rule}: {fld} construction sites proved in range", n + len(seen), sp["floor"] if floor is None else floor)
     return n
